@@ -252,7 +252,7 @@ pub fn case(tape: &[u32]) -> CaseOutcome {
         cfg.collisions = a.chance(1, 3);
         cfg.max_stanzas = if thorough { 8 } else { 5 };
         cfg.max_stmts = 3;
-        cfg.prints = false;
+        cfg.prints = a.chance(1, 2);
         cfg.fault = a.chance(1, 8);
         let g = crate::gen::generate(&mut t, &cfg);
         (g.prog, g.globals)
